@@ -33,6 +33,22 @@ theorem checkRange_step {α} (v lo hi : Int) (f : Unit → R α) :
   unfold checkRange
   split <;> rfl
 
+theorem ite_err_ok {α} {c : Prop} [Decidable c] {e : PyExc} {x : R α} {r : α}
+    (h : (if c then .error e else x) = .ok r) : ¬c ∧ x = .ok r := by
+  by_cases hc : c
+  · rw [if_pos hc] at h; cases h
+  · rw [if_neg hc] at h; exact ⟨hc, h⟩
+
+theorem ite_err_err {α} {c : Prop} [Decidable c] {e e' : PyExc} {x : R α}
+    (h : (if c then .error e else x) = .error e') : (c ∧ e' = e) ∨ (¬c ∧ x = .error e') := by
+  by_cases hc : c
+  · rw [if_pos hc] at h; left; exact ⟨hc, by cases h; rfl⟩
+  · rw [if_neg hc] at h; right; exact ⟨hc, h⟩
+
+/-- peel the chain of range tests off a successful factory call -/
+macro "peel_ok" h:ident : tactic =>
+  `(tactic| (repeat (have hpeel := ite_err_ok $h; clear $h; have $h := hpeel.2; have := hpeel.1; clear hpeel)))
+
 /-! ### the factories without the outer all-at-once test -/
 
 theorem new_eq (h m s ms : Int) : LocalTime.new h m s ms =
@@ -41,7 +57,7 @@ theorem new_eq (h m s ms : Int) : LocalTime.new h m s ms =
     else .ok ⟨h * NPH + m * NPMin + s * NPS + ms * NPMs⟩ := by
   unfold LocalTime.new
   rw [guarded_bind]
-  · simp only [bind_assoc, checkRange_step, HPD, Int.reduceSub]
+  · simp only [bind_assoc]; simp only [checkRange_step, HPD, Int.reduceSub]
   · intro hc
     rw [checkRange_ok _ _ _ (by omega), checkRange_ok _ _ _ (by omega), checkRange_ok _ _ _ (by omega),
       checkRange_ok _ _ _ (by omega)]
@@ -54,7 +70,7 @@ theorem fromHMSMsT_eq (h m s ms t : Int) : fromHMSMsT h m s ms t =
     else .ok ⟨h * NPH + m * NPMin + s * NPS + ms * NPMs + t * NPT⟩ := by
   unfold fromHMSMsT
   rw [guarded_bind]
-  · simp only [bind_assoc, checkRange_step, HPD, LocalTime.TPMs, Int.reduceSub]
+  · simp only [bind_assoc]; simp only [checkRange_step, HPD, LocalTime.TPMs, Int.reduceSub]
   · intro hc
     rw [checkRange_ok _ _ _ (by omega), checkRange_ok _ _ _ (by omega), checkRange_ok _ _ _ (by omega),
       checkRange_ok _ _ _ (by omega), checkRange_ok _ _ _ (by omega)]
@@ -66,7 +82,7 @@ theorem fromHMST_eq (h m s t : Int) : fromHMST h m s t =
     else .ok ⟨h * NPH + m * NPMin + s * NPS + t * NPT⟩ := by
   unfold fromHMST
   rw [guarded_bind]
-  · simp only [bind_assoc, checkRange_step, HPD, TPS, Int.reduceSub]
+  · simp only [bind_assoc]; simp only [checkRange_step, HPD, TPS, Int.reduceSub]
   · intro hc
     rw [checkRange_ok _ _ _ (by omega), checkRange_ok _ _ _ (by omega), checkRange_ok _ _ _ (by omega),
       checkRange_ok _ _ _ (by omega)]
@@ -78,7 +94,7 @@ theorem fromHMSN_eq (h m s n : Int) : fromHMSN h m s n =
     else .ok ⟨h * NPH + m * NPMin + s * NPS + n⟩ := by
   unfold fromHMSN
   rw [guarded_bind]
-  · simp only [bind_assoc, checkRange_step, HPD, NPS, Int.reduceSub]
+  · simp only [bind_assoc]; simp only [checkRange_step, HPD, NPS, Int.reduceSub]
   · intro hc
     rw [checkRange_ok _ _ _ (by omega), checkRange_ok _ _ _ (by omega), checkRange_ok _ _ _ (by omega),
       checkRange_ok _ _ _ (by omega)]
@@ -101,31 +117,41 @@ theorem since_eq (v perDay npu : Int) : fromUnitsSinceMidnight v perDay npu =
 theorem new_exact (h m s ms : Int) (t : LocalTime) (hk : LocalTime.new h m s ms = .ok t) :
     Valid t ∧ t.nod = ((h * 60 + m) * 60 + s) * NPS + ms * NPMs ∧ HMS h m s ∧ 0 ≤ ms ∧ ms ≤ 999 := by
   rw [new_eq] at hk
-  simp only [Valid, HMS]; c10_consts; grind
+  peel_ok hk
+  simp only [Except.ok.injEq] at hk; subst hk
+  simp only [Valid, HMS]; c10_consts; omega
 
 theorem fromHMSMsT_exact (h m s ms tk : Int) (t : LocalTime) (hk : fromHMSMsT h m s ms tk = .ok t) :
     Valid t ∧ t.nod = ((h * 60 + m) * 60 + s) * NPS + ms * NPMs + tk * NPT ∧ HMS h m s ∧ 0 ≤ ms ∧ ms ≤ 999
       ∧ 0 ≤ tk ∧ tk ≤ 9999 := by
   rw [fromHMSMsT_eq] at hk
-  simp only [Valid, HMS]; c10_consts; grind
+  peel_ok hk
+  simp only [Except.ok.injEq] at hk; subst hk
+  simp only [Valid, HMS]; c10_consts; omega
 
 theorem fromHMST_exact (h m s tk : Int) (t : LocalTime) (hk : fromHMST h m s tk = .ok t) :
     Valid t ∧ t.nod = ((h * 60 + m) * 60 + s) * NPS + tk * NPT ∧ HMS h m s ∧ 0 ≤ tk ∧ tk < TPS := by
   rw [fromHMST_eq] at hk
-  simp only [Valid, HMS]; c10_consts; grind
+  peel_ok hk
+  simp only [Except.ok.injEq] at hk; subst hk
+  simp only [Valid, HMS]; c10_consts; omega
 
 theorem fromHMSN_exact (h m s n : Int) (t : LocalTime) (hk : fromHMSN h m s n = .ok t) :
     Valid t ∧ t.nod = ((h * 60 + m) * 60 + s) * NPS + n ∧ HMS h m s ∧ 0 ≤ n ∧ n < NPS := by
   rw [fromHMSN_eq] at hk
-  simp only [Valid, HMS]; c10_consts; grind
+  peel_ok hk
+  simp only [Except.ok.injEq] at hk; subst hk
+  simp only [Valid, HMS]; c10_consts; omega
 
 theorem fromNanos_exact (n : Int) (t : LocalTime) (hk : fromNanosSinceMidnight n = .ok t) :
     Valid t ∧ t.nod = n := by
   rw [fromNanos_eq] at hk
-  simp only [Valid]; c10_consts; grind
+  peel_ok hk
+  simp only [Except.ok.injEq] at hk; subst hk
+  simp only [Valid, and_true]; c10_consts; omega
 
 /-- `_int64_overflow` is the identity on the products the `from_*_since_midnight` factories form -/
-theorem since_exact (v perDay npu : Int) (t : LocalTime) (h0 : 0 < perDay) (h1 : 0 < npu) (h2 : perDay * npu = NPD)
+theorem since_exact (v perDay npu : Int) (t : LocalTime) (_h0 : 0 < perDay) (h1 : 0 < npu) (h2 : perDay * npu = NPD)
     (hk : fromUnitsSinceMidnight v perDay npu = .ok t) : Valid t ∧ t.nod = v * npu := by
   rw [since_eq] at hk
   split at hk
@@ -142,7 +168,7 @@ theorem since_exact (v perDay npu : Int) (t : LocalTime) (h0 : 0 < perDay) (h1 :
       rw [fmod_pos _ _ (by decide)]
       simp only [NPD] at hb
       omega
-    simp only [Valid, this]
+    rw [this]
     exact ⟨⟨hlo, hb⟩, rfl⟩
 
 theorem new_raises_iff (h m s ms : Int) :
@@ -190,5 +216,283 @@ theorem since_raises_iff (v perDay npu : Int) :
 theorem new_error_kind (h m s ms : Int) (e : PyExc) (hk : LocalTime.new h m s ms = .error e) :
     e = .valueError := by
   rw [new_eq] at hk; grind
+
+/-! ### accessors -/
+
+theorem shr13 (x : Int) : x >>> 13 = x / 8192 := by
+  rw [Int.shiftRight_eq_div_pow]; rfl
+
+theorem shr11 (x : Int) : x >>> 11 = x / 2048 := by
+  rw [Int.shiftRight_eq_div_pow]; rfl
+
+theorem int32Overflow_id (v : Int) (h : -2147483648 ≤ v ∧ v < 2147483648) : int32Overflow v = v := by
+  unfold int32Overflow
+  rw [fmod_pos _ _ (by decide)]
+  omega
+
+theorem hour_eq (t : LocalTime) (hv : Valid t) : t.hour = .ok (t.nod / NPH) := by
+  simp only [Valid] at hv
+  unfold LocalTime.hour
+  c10_consts
+  rw [shr13, pyTdiv_ok _ _ (by decide) (by c10_consts; omega) (by c10_consts; omega) (by decide) (by decide)]
+  simp (disch := decide) only [tdiv_pos]
+  simp only [Except.ok.injEq]
+  split <;> omega
+
+theorem minute_eq (t : LocalTime) (hv : Valid t) : t.minute = .ok (t.nod / NPMin % 60) := by
+  simp only [Valid] at hv
+  unfold LocalTime.minute
+  c10_consts
+  rw [shr11, pyTdiv_bind _ _ _ (by decide) (by c10_consts; omega) (by c10_consts; omega) (by decide) (by decide)]
+  simp (disch := decide) only [tdiv_pos, csharpMod_pos]
+  simp only [Except.ok.injEq]
+  split <;> split <;> omega
+
+theorem second_eq (t : LocalTime) (hv : Valid t) : t.second = .ok (t.nod / NPS % 60) := by
+  simp only [Valid] at hv
+  unfold LocalTime.second
+  c10_consts
+  rw [pyTdiv_bind _ _ _ (by decide) (by c10_consts; omega) (by c10_consts; omega) (by decide) (by decide)]
+  simp (disch := decide) only [tdiv_pos, csharpMod_pos]
+  simp only [Except.ok.injEq]
+  split <;> split <;> omega
+
+theorem millisecond_eq (t : LocalTime) (hv : Valid t) : t.millisecond = .ok (t.nod / NPMs % 1000) := by
+  simp only [Valid] at hv
+  unfold LocalTime.millisecond
+  c10_consts
+  rw [pyTdiv_bind _ _ _ (by decide) (by c10_consts; omega) (by c10_consts; omega) (by decide) (by decide)]
+  simp (disch := decide) only [tdiv_pos, csharpMod_pos]
+  simp only [Except.ok.injEq]
+  split <;> split <;> omega
+
+theorem microsecond_eq (t : LocalTime) (hv : Valid t) : t.microsecond = .ok (t.nod / NPUs % 1000000) := by
+  simp only [Valid] at hv
+  unfold LocalTime.microsecond
+  c10_consts
+  rw [pyTdiv_bind _ _ _ (by decide) (by c10_consts; omega) (by c10_consts; omega) (by decide) (by decide)]
+  simp (disch := decide) only [tdiv_pos, csharpMod_pos]
+  simp only [Except.ok.injEq]
+  split <;> split <;> omega
+
+theorem tickOfDay_eq (t : LocalTime) (hv : Valid t) : t.tickOfDay = .ok (t.nod / NPT) := by
+  simp only [Valid] at hv
+  unfold LocalTime.tickOfDay
+  c10_consts
+  rw [pyTdiv_ok _ _ (by decide) (by c10_consts; omega) (by c10_consts; omega) (by decide) (by decide)]
+  simp (disch := decide) only [tdiv_pos]
+  simp only [Except.ok.injEq]
+  split <;> omega
+
+theorem tickOfSecond_eq (t : LocalTime) (hv : Valid t) : t.tickOfSecond = .ok (t.nod / NPT % TPS) := by
+  unfold LocalTime.tickOfSecond
+  rw [tickOfDay_eq t hv]
+  simp only [Valid] at hv
+  c10_consts
+  simp only [bind, Except.bind, Except.ok.injEq]
+  simp (disch := decide) only [csharpMod_pos]
+  rw [int32Overflow_id] <;> split <;> omega
+
+theorem nanosecondOfSecond_eq (t : LocalTime) (hv : Valid t) : t.nanosecondOfSecond = t.nod % NPS := by
+  simp only [Valid] at hv
+  unfold LocalTime.nanosecondOfSecond
+  c10_consts
+  simp (disch := decide) only [csharpMod_pos]
+  rw [int32Overflow_id] <;> split <;> omega
+
+theorem clockHour_eq (t : LocalTime) (hv : Valid t) :
+    t.clockHourOfHalfDay = .ok (if t.nod / NPH % 12 = 0 then 12 else t.nod / NPH % 12) := by
+  unfold LocalTime.clockHourOfHalfDay
+  rw [hour_eq t hv]
+  simp only [Valid] at hv
+  c10_consts
+  simp only [bind, Except.bind, Except.ok.injEq]
+  simp (disch := decide) only [csharpMod_pos]
+  rw [int32Overflow_id] <;> split <;> omega
+
+/-! ### _TimePeriodField steps -/
+
+theorem pyTdiv_bind_ok {α} (x y : Int) (f : Int → R α) (r : α) (h : (pyTdiv x y >>= f) = .ok r) :
+    f (Int.tdiv x y) = .ok r ∧ inDecDomain x y = true := by
+  unfold pyTdiv at h
+  split at h
+  · split at h <;> cases h
+  · split at h
+    · rename_i hd; exact ⟨h, hd⟩
+    · cases h
+
+theorem pyTdiv_bind_err {α} (x y : Int) (f : Int → R α) (e : PyExc) (hy : y ≠ 0) (h : (pyTdiv x y >>= f) = .error e) :
+    (f (Int.tdiv x y) = .error e ∧ inDecDomain x y = true) ∨ (e = .decimalDomain ∧ inDecDomain x y = false) := by
+  unfold pyTdiv at h
+  rw [if_neg hy] at h
+  split at h
+  · rename_i hd; left; exact ⟨h, hd⟩
+  · rename_i hd; right; refine ⟨by cases h; rfl, by simpa using hd⟩
+
+theorem splitDays_ok (u : TimeUnit) (big : Bool) (v : Int) (dv : Int × Int) (h : u.splitDays big v = .ok dv) :
+    dv = if big then (Int.tdiv v u.unitsPerDay, csharpMod v u.unitsPerDay) else (0, v) := by
+  unfold splitDays at h
+  cases big
+  · simp only [Bool.false_eq_true, if_false, Except.ok.injEq] at h ⊢; exact h.symm
+  · simp only [if_true] at h ⊢
+    have := (pyTdiv_bind_ok _ _ _ _ h).1
+    simp only [Except.ok.injEq] at this; exact this.symm
+
+theorem unitsPerDay_pos (u : TimeUnit) : 0 < u.unitsPerDay := by cases u <;> decide
+theorem unitsPerDay_lt (u : TimeUnit) : u.unitsPerDay < decBound := by cases u <;> decide
+theorem nanos_pos (u : TimeUnit) : 0 < u.nanos := by cases u <;> decide
+theorem unitsPerDay_mul_nanos (u : TimeUnit) : u.unitsPerDay * u.nanos = NPD := by cases u <;> decide
+
+/-- inside the Decimal domain the split never fails -/
+theorem splitDays_dom (u : TimeUnit) (big : Bool) (v : Int) (h1 : -decBound < v) (h2 : v < decBound) :
+    u.splitDays big v = .ok (if big then (Int.tdiv v u.unitsPerDay, csharpMod v u.unitsPerDay) else (0, v)) := by
+  unfold splitDays
+  cases big
+  · simp only [Bool.false_eq_true, if_false]
+  · simp only [if_true]
+    have hp := unitsPerDay_pos u
+    have hl := unitsPerDay_lt u
+    rw [pyTdiv_bind _ _ _ (by omega) h1 h2 (by simp only [decBound] at *; omega) hl]
+
+/-- the split fails only with the Decimal-domain error, and only for amounts of 10^27 units or more -/
+theorem splitDays_err (u : TimeUnit) (big : Bool) (v : Int) (e : PyExc) (h : u.splitDays big v = .error e) :
+    e = .decimalDomain ∧ (v ≤ -decBound ∨ decBound ≤ v) := by
+  by_cases hd : -decBound < v ∧ v < decBound
+  · rw [splitDays_dom u big v hd.1 hd.2] at h; cases h
+  · unfold splitDays at h
+    cases big
+    · simp only [Bool.false_eq_true, if_false] at h; cases h
+    · simp only [if_true] at h
+      have hp := unitsPerDay_pos u
+      rcases pyTdiv_bind_err _ _ _ _ (by omega) h with ⟨h', _⟩ | ⟨he, _⟩
+      · cases h'
+      · exact ⟨he, by omega⟩
+
+theorem ite_ok_exists {α} {c : Prop} [Decidable c] (a b : α) :
+    ∃ r, (if c then (Except.ok a : R α) else .ok b) = .ok r := by
+  by_cases h : c
+  · exact ⟨a, by rw [if_pos h]⟩
+  · exact ⟨b, by rw [if_neg h]⟩
+
+/-- the negative branch of `_add_local_time_with_extra_days` -/
+theorem neg_branch (u : TimeUnit) (t t' : LocalTime) (k d : Int) (hv : Valid t) (hk : ¬ k ≥ 0)
+    (h : (do
+      let dv ← u.splitDays (decide (k ≤ -u.unitsPerDay)) k
+      let n := t.nod + dv.2 * u.nanos
+      if n < 0 then .ok (⟨n + NPD⟩, dv.1 - 1) else .ok (⟨n⟩, dv.1) : R (LocalTime × Int)) = .ok (t', d)) :
+    Valid t' ∧ t.nod + k * u.nanos = d * NPD + t'.nod := by
+  cases hs : u.splitDays (decide (k ≤ -u.unitsPerDay)) k with
+  | error e => rw [hs] at h; cases h
+  | ok dv =>
+    rw [hs] at h
+    have hdv := splitDays_ok _ _ _ _ hs
+    simp only [bind, Except.bind] at h
+    simp only [Valid] at *
+    have hlt : k < 0 := by omega
+    cases hbig : decide (k ≤ -u.unitsPerDay)
+    · have hb := of_decide_eq_false hbig
+      rw [hbig] at hdv
+      simp only [Bool.false_eq_true, if_false] at hdv
+      subst hdv
+      simp only at h
+      split at h <;>
+      · simp only [Except.ok.injEq, Prod.mk.injEq] at h
+        obtain ⟨rfl, rfl⟩ := h
+        cases u <;>
+        · simp only [TimeUnit.nanos, TimeUnit.unitsPerDay] at *
+          c10_consts
+          omega
+    · have hb := of_decide_eq_true hbig
+      rw [hbig] at hdv
+      simp only [if_true] at hdv
+      subst hdv
+      simp only at h
+      split at h <;>
+      · simp only [Except.ok.injEq, Prod.mk.injEq] at h
+        obtain ⟨rfl, rfl⟩ := h
+        cases u <;>
+        · simp only [TimeUnit.nanos, TimeUnit.unitsPerDay] at *
+          c10_consts
+          simp (disch := decide) only [tdiv_pos, csharpMod_pos] at *
+          simp only [show ¬ (0 ≤ k) by omega, hlt, if_false, true_and] at *
+          split at * <;> omega
+
+/-- the non-negative branch of `_add_local_time_with_extra_days` -/
+theorem pos_branch (u : TimeUnit) (t t' : LocalTime) (k d : Int) (hv : Valid t) (hk : k ≥ 0)
+    (h : (do
+      let dv ← u.splitDays (decide (k ≥ u.unitsPerDay)) k
+      let n := t.nod + dv.2 * u.nanos
+      if n ≥ NPD then .ok (⟨n - NPD⟩, dv.1 + 1) else .ok (⟨n⟩, dv.1) : R (LocalTime × Int)) = .ok (t', d)) :
+    Valid t' ∧ t.nod + k * u.nanos = d * NPD + t'.nod := by
+  cases hs : u.splitDays (decide (k ≥ u.unitsPerDay)) k with
+  | error e => rw [hs] at h; cases h
+  | ok dv =>
+    rw [hs] at h
+    have hdv := splitDays_ok _ _ _ _ hs
+    simp only [bind, Except.bind] at h
+    simp only [Valid] at *
+    cases hbig : decide (k ≥ u.unitsPerDay)
+    · have hb := of_decide_eq_false hbig
+      rw [hbig] at hdv
+      simp only [Bool.false_eq_true, if_false] at hdv
+      subst hdv
+      simp only at h
+      split at h <;>
+      · simp only [Except.ok.injEq, Prod.mk.injEq] at h
+        obtain ⟨rfl, rfl⟩ := h
+        cases u <;>
+        · simp only [TimeUnit.nanos, TimeUnit.unitsPerDay] at *
+          c10_consts
+          omega
+    · have hb := of_decide_eq_true hbig
+      rw [hbig] at hdv
+      simp only [if_true] at hdv
+      subst hdv
+      simp only at h
+      split at h <;>
+      · simp only [Except.ok.injEq, Prod.mk.injEq] at h
+        obtain ⟨rfl, rfl⟩ := h
+        cases u <;>
+        · simp only [TimeUnit.nanos, TimeUnit.unitsPerDay] at *
+          c10_consts
+          simp (disch := decide) only [tdiv_pos, csharpMod_pos] at *
+          simp only [show (0 ≤ k) by omega, show ¬ (k < 0) by omega, if_true, false_and, if_false] at *
+          omega
+
+/-! ### the date as a day number -/
+
+/-- a day number inside the calendar's range -/
+def InRange (r : DayRange) (d : Int) : Prop := r.minD ≤ d ∧ d ≤ r.maxD
+
+theorem addFixed_ok (r : DayRange) (ud day v d' : Int) (h : r.addFixed ud day v = .ok d') (hin : InRange r day) :
+    d' = day + v * ud ∧ InRange r d' := by
+  unfold DayRange.addFixed at h
+  simp only [InRange] at *
+  split at h
+  · rename_i hv; simp only [Except.ok.injEq] at h; subst h; subst hv; omega
+  · split at h <;> split at h <;> first | (simp only [Except.ok.injEq] at h; subst h; omega) | cases h
+
+theorem addFixed_err (r : DayRange) (ud day v : Int) (e : PyExc) (h : r.addFixed ud day v = .error e) :
+    ¬ InRange r (day + v * ud) ∧ (e = .overflowError ∨ e = .valueError) := by
+  unfold DayRange.addFixed at h
+  simp only [InRange] at *
+  split at h
+  · cases h
+  · split at h <;> split at h <;> first | (simp only [Except.error.injEq] at h; subst h; exact ⟨by omega, by simp⟩) | cases h
+
+theorem addFixed_inRange (r : DayRange) (ud day v : Int) (_hin : InRange r day) (hr : InRange r (day + v * ud)) :
+    r.addFixed ud day v = .ok (day + v * ud) := by
+  unfold DayRange.addFixed
+  simp only [InRange] at *
+  split
+  · rename_i hv; subst hv; simp only [Int.zero_mul, Int.add_zero]
+  · split <;> split <;> first | rfl | omega
+
+theorem bind_ok_inv {α β} (x : R α) (f : α → R β) (r : β) (h : (x >>= f) = .ok r) :
+    ∃ a, x = .ok a ∧ f a = .ok r := by
+  cases x with
+  | error e => cases h
+  | ok a => exact ⟨a, rfl, h⟩
+
 
 end Pyoda.C10
